@@ -334,6 +334,16 @@ func (s *Store) compact(footer *Footer, partialCompactStart int,
 	}
 
 	s.m.Lock()
+	if s.refs <= 0 {
+		// The store was closed while this compaction was in flight;
+		// nobody would ever release a footer installed now.
+		s.m.Unlock()
+		compactFooter.DecRef()
+		if partialCompactStart == 0 {
+			s.removeFileOnClose(frefCompact)
+		}
+		return ErrClosed
+	}
 	footerPrev := s.footer
 	s.footer = compactFooter // Owns the frefCompact ref-count.
 	if partialCompactStart == 0 {
